@@ -345,3 +345,46 @@ SUBS = [
     Sub('block', check_block, strategy=block_strategy, quick=3000, thorough=80000, shards_quick=4),
     Sub('literal', check_literal, enumerate=literal_cases, shards_quick=1, shards_thorough=1),
 ]
+
+
+# --------------------------------------------------------------------------- the active default profiles are part of the input, their history is not
+
+DEFAULTS = [None, 'CSS Level 2.1', 'CSS Color Module Level 3', ['CSS Level 2.1', 'CSS Box Module Level 3'], 'CSS Text Level 3',
+            ['CSS Backgrounds and Borders Module Level 3']]
+PROFILE_SENSITIVE = [('color', 'rgba(1, 2, 3, 0.5)'), ('color', 'red'), ('opacity', '.5'), ('box-shadow', 'none'), ('text-shadow', 'none'),
+                     ('overflow', 'hidden scroll'), ('overflow-x', 'hidden'), ('border-radius', '2px'), ('color', 'hsl(1, 2%, 3%)'),
+                     ('margin-top', '1px'), ('resize', 'both'), ('font-stretch', 'condensed'), ('x-unknown', 'a')]
+defaults_strategy = st.fixed_dictionaries({
+    'pairs': st.lists(st.sampled_from(PROFILE_SENSITIVE), min_size=1, max_size=3),
+    'settings': st.lists(st.integers(0, len(DEFAULTS) - 1), min_size=2, max_size=4),
+})
+
+
+def check_defaults(case, ctx):
+    saved = cssutils.log.raiseExceptions
+    cssutils.log.raiseExceptions = False
+    old = cssutils.profile._defaultProfiles
+    try:
+        for si in case['settings']:
+            d = DEFAULTS[si]
+            with lib('defaultProfiles'):
+                cssutils.profile.defaultProfiles = d
+                fresh = PR.Profiles(log=cssutils.log)
+                fresh.defaultProfiles = d
+            for name, value in case['pairs']:
+                with lib('validate'):
+                    p = Property(name, value)
+                    got = bool(p.valid)
+                    r = fresh.validateWithProfile(name, p.value)
+                    exp = bool(r[0] and r[1])
+                    got_reg = cssutils.profile.validateWithProfile(name, p.value)
+                if got != exp or tuple(got_reg) != tuple(r):
+                    raise Violation('verdict:depends-on-earlier-default-profiles', f'{name}: {value} under defaultProfiles={d!r} after settings '
+                                    f'{[DEFAULTS[i] for i in case["settings"]]}: property {got}, registry {got_reg}, fresh registry {r}')
+    finally:
+        cssutils.profile.defaultProfiles = old
+        cssutils.log.raiseExceptions = saved
+    ctx.case(case, len(set(case['settings'])) >= 2, {'pairs': case['pairs'], 'settings': [DEFAULTS[i] for i in case['settings']]})
+
+
+SUBS.append(Sub('defaults', check_defaults, strategy=defaults_strategy, quick=400, thorough=20000, shards_quick=4))
